@@ -87,9 +87,14 @@ def with_build_env(prop, cases):
     if not n or not cases:
         return cases
     import copy
-    step = max(1, len(cases) // n)
+    # blocks of three CONSECUTIVE cases (for the struct properties: one shader under several option sets), spread over the list
+    nb = max(1, n // 3)
+    step = max(3, len(cases) // nb)
+    picked = []
+    for st in range(0, len(cases), step):
+        picked.extend(cases[st:st + 3])
     extra = []
-    for c in cases[::step][:n]:
+    for c in picked[:n]:
         d = copy.deepcopy(c)
         d["env"] = "build_script"
         d["family"] = str(d.get("family", "")) + "+build_script_env"
